@@ -75,6 +75,9 @@ type opJ struct {
 	Worker int `json:"worker,omitempty"`
 	After  int `json:"after,omitempty"`
 	Len    int `json:"len,omitempty"`
+	// outage with Ckpt: a checkpoint is triggered as soon as the fed records have been read, so that they are still in the
+	// operator's pending batch when the barrier arrives and the flush before the cut reads state during the outage
+	Ckpt bool `json:"ckpt,omitempty"`
 }
 
 func pInt(c *hx.Case, k string, d int) int {
@@ -343,6 +346,7 @@ func (r *runner) checkpoint(o *opJ) {
 		case "before":
 			r.c.ReleasePublication()
 			r.wait(published(true))
+			r.c.AwaitCurrent(id, 100*time.Millisecond)
 			r.crash(cr)
 		case "deploy":
 			hook := func(first bool) {
@@ -368,6 +372,7 @@ func (r *runner) checkpoint(o *opJ) {
 		r.tags["ckpt-not-published"] = true
 		return
 	}
+	r.c.AwaitCurrent(id, 100*time.Millisecond) // the store has recorded it too: a surviving job restarts from it
 	r.tags["ckpt-published"] = true
 	r.flushedAtCkpt = sstCount(r.c.WorkDir()) > 0
 }
@@ -401,6 +406,28 @@ func (r *runner) outage(o *opJ) {
 		r.sc.Allow(s, max(o.N, 1))
 	}
 	died := func() bool { return len(r.c.LiveWorkers()) < r.w }
+	if o.Ckpt {
+		r.c.AwaitNoFlush(r.readAllCond(), r.timeout())
+		before := len(r.c.Log().Started)
+		if err := r.c.TriggerCheckpoint(); err == nil {
+			if st := r.c.Log().Started; len(st) > before {
+				id := st[len(st)-1]
+				r.c.AwaitNoFlush(func(l *clusterlib.Log) bool { // only the runners' batch time-outs: the barrier's own flush is what reads state
+					r.c.FireRunnerTimers()
+					if died() {
+						return true
+					}
+					for _, p := range l.Published {
+						if p.ID == id && p.Done {
+							r.tags["outage:checkpoint-published-during-outage"] = true
+							return true
+						}
+					}
+					return false
+				}, r.timeout())
+			}
+		}
+	}
 	r.c.Await(func(l *clusterlib.Log) bool { return died() || (r.readAllCond()(l) && r.drainedCond()(l)) }, r.timeout())
 	if r.c.ReadOutageHits(v) > 0 {
 		r.tags["outage:reads-failed"] = true
@@ -979,7 +1006,7 @@ func genCase(r *hx.Rand, i int, tier string) *hx.Case {
 		// then a transient storage outage that begins somewhere inside the scans of the restored state
 		ops = append(ops, hx.Op(opJ{Op: "feed", Split: -1, N: r.Range(5, 9)}), hx.Op(opJ{Op: "drain"}), hx.Op(opJ{Op: "settle"}), hx.Op(opJ{Op: "ckpt", Perm: perm()}),
 			hx.Op(opJ{Op: "crash", Crash: &crashJ{Job: true, Workers: curW}}),
-			hx.Op(opJ{Op: "outage", Worker: r.Intn(3), After: r.Intn(90), Len: r.Range(3, 60), N: r.Range(2, 4)}))
+			hx.Op(opJ{Op: "outage", Worker: r.Intn(3), After: r.Intn(90), Len: r.Range(3, 60), N: r.Range(2, 4), Ckpt: r.Chance(1, 2)}))
 		phases = r.Range(1, 3)
 	}
 	for p := 0; p < phases; p++ {
@@ -997,7 +1024,7 @@ func genCase(r *hx.Rand, i int, tier string) *hx.Case {
 			if timersOn {
 				break
 			}
-			ops = append(ops, hx.Op(opJ{Op: "outage", Worker: r.Intn(3), After: r.Intn(60), Len: r.Range(2, 40), N: r.Range(1, 4)}))
+			ops = append(ops, hx.Op(opJ{Op: "outage", Worker: r.Intn(3), After: r.Intn(60), Len: r.Range(2, 40), N: r.Range(1, 4), Ckpt: r.Chance(1, 2)}))
 		case 6: // checkpoint fully acknowledged, publication in flight while all workers are lost and re-deployed
 			ops = append(ops, hx.Op(opJ{Op: "ckpt", Perm: perm(), PubHold: hx.Pick(r, []string{"before", "deploy", "deploy", "after"}),
 				Crash: &crashJ{Notice: hx.Pick(r, []string{"expire", "dereg"})}}))
